@@ -80,8 +80,9 @@ func vfC07Oracle(in *vfGWInst, evFull string, pre, post *vfSnap) {
 			if post.Direct[p] {
 				in.bad("c07:added-direct", "direct peer %s was added to mesh[%s]", p, t)
 			}
-			if rem, ok := pre.Backoff[t][p]; ok && rem > 0 {
-				in.bad("c07:added-backedoff", "%s was added to mesh[%s] with %v of backoff remaining", p, t, rem)
+			// (time may pass inside the step: only a backoff that is still running at its end is certainly violated)
+			if rem, ok := pre.Backoff[t][p]; ok && rem-(post.Now-pre.Now) > 0 {
+				in.bad("c07:added-backedoff", "%s was added to mesh[%s] with %v of backoff remaining", p, t, rem-(post.Now-pre.Now))
 			}
 			if g.cfg.Scoring && pre.Score[p] < 0 && post.Score[p] < 0 {
 				in.bad("c07:added-negative", "%s (score %v) was added to mesh[%s]", p, post.Score[p], t)
@@ -276,7 +277,7 @@ func vfC07Scenarios(thorough bool) []*vfGWScenario {
 	// S1: growth from scratch, mixed protocols, churn of one peer
 	for _, ps := range []string{"d2", "d2tight", "zero"} {
 		mk("grow-"+ps, ps, p4, connAll(p4, true),
-			[]string{"join:t", "leave:t", "hb", "graft:a:t", "prune:a:t", "prune:b:t:8", "score:a:-1", "score:a:0", "score:b:-1", "score:b:2", "disc:a", "conn:a", "sub:a:t", "unsub:b:t", "adv:2500"}, d)
+			[]string{"join:t", "leave:t", "hb", "graft:a:t", "prune:a:t", "prune:b:t:8", "score:a:-1", "score:a:0", "score:b:-1", "score:b:2", "disc:a", "conn:a", "sub:a:t", "unsub:b:t", "adv:2500", "lpub:t:p1"}, d)
 	}
 	// S2: over-subscription from a seeded full mesh
 	p6 := []vfPeerCfg{{Name: "a", Proto: "v11", IP: "10.0.0.1"}, {Name: "b", Proto: "v11", IP: "10.0.0.2", Outbound: true}, {Name: "c", Proto: "v12", IP: "10.0.0.3"},
@@ -299,6 +300,14 @@ func vfC07Scenarios(thorough bool) []*vfGWScenario {
 	// S3b: zero periods for opportunistic grafting / direct connect (accepted by parameter validation)
 	for _, ps := range []string{"d2og0", "d2dc0"} {
 		mk("zero-period-"+ps, ps, p4, connAll(p4, true), []string{"join:t", "leave:t", "hb", "graft:a:t", "prune:a:t", "score:a:-1", "score:b:2"}, d-1)
+	}
+	// S3c: two joined topics sharing peers: one heartbeat prunes a peer from one mesh and grafts it into the other
+	{
+		p3 := []vfPeerCfg{{Name: "a", Proto: "v11", IP: "10.0.0.1"}, {Name: "b", Proto: "v12", IP: "10.0.0.2"}, {Name: "c", Proto: "v11", IP: "10.0.0.3"}}
+		pre := append(connAll(p3, true), "join:t", "graft:a:t", "graft:b:t", "graft:c:t", "join:u", "score:b:2", "score:c:2")
+		out = append(out, &vfGWScenario{Name: "two-topics", Cfg: vfGWCfg{Router: "gossip", Peers: p3, Topics: []string{"t", "u"}, Params: "d2", Scoring: true, Prefix: pre},
+			Alphabet: []string{"hb", "sub:a:u", "sub:b:u", "sub:c:u", "score:a:1", "score:c:0", "graft:a:u", "prune:b:t", "leave:u", "join:u", "leave:t", "join:t"},
+			Depth:    d, DevKinds: []string{"peers"}, DevEvents: []string{"hb", "join"}, DevMax: 6})
 	}
 	// S4: fanout -> join promotion, two topics
 	if thorough {
